@@ -32,11 +32,18 @@ type solverSpec struct {
 	args func(file string, timeoutS int) []string
 }
 
+// the older z3 4.8.12 takes part in the thorough tier (independent second opinion)
+var oldZ3 = solverSpec{"z3-4.8.12", func(f string, t int) []string { return []string{"z3", fmt.Sprintf("-T:%d", t), f} }}
+
 var solvers = []solverSpec{
-	{"z3-new", func(f string, t int) []string { return []string{"z3-new", fmt.Sprintf("-T:%d", t), f} }},
-	{"z3", func(f string, t int) []string { return []string{"z3", fmt.Sprintf("-T:%d", t), f} }},
+	{"z3-new", func(f string, t int) []string {
+		return []string{"z3-new", "smt.array.extensional=false", fmt.Sprintf("-T:%d", t), f}
+	}},
+	{"z3-new-norelevancy", func(f string, t int) []string {
+		return []string{"z3-new", "smt.mbqi=false", "smt.auto_config=false", "smt.array.extensional=false", "smt.relevancy=0", fmt.Sprintf("-T:%d", t), f}
+	}},
 	{"z3-new-ematch", func(f string, t int) []string {
-		return []string{"z3-new", "smt.mbqi=false", "smt.auto_config=false", fmt.Sprintf("-T:%d", t), f}
+		return []string{"z3-new", "smt.mbqi=false", "smt.auto_config=false", "smt.array.extensional=false", fmt.Sprintf("-T:%d", t), f}
 	}},
 	{"cvc5", func(f string, t int) []string {
 		return []string{"cvc5", fmt.Sprintf("--tlimit=%d", t*1000), f}
